@@ -1026,7 +1026,10 @@ def move_imports_to_toplevel(source: str) -> str:
             safe_position_lineno = min(module_import_linenos)
 
         source_lines = [line.rstrip("\r\n") for line in core.split_lines(source)]
-        while safe_position_lineno > 1 and re.findall(r"^\s+", source_lines[safe_position_lineno]):
+        while (
+            1 < safe_position_lineno < len(source_lines)  # The line below the last one is not indented
+            and re.findall(r"^\s+", source_lines[safe_position_lineno])
+        ):
             safe_position_lineno -= 1
 
         new_node = ast.ImportFrom(
